@@ -144,6 +144,38 @@ def gen_samples(seed: int, n: int, render=None, symbols=None, max_len=None):
     return out
 
 
+def gen_source_forms(seed: int, n: int, render=None, symbols=None, max_len=None):
+    """Deterministic stream of (index, expression) of LAW-STYLE SOURCE FORMS (rc.SourceFormGen): unevaluated trees as
+    the doc build sees them, e.g. -a*b/(4*c)/d**2, a/b/c, a*(b + c)/d - e."""
+    render = render or code_str
+    max_len = max_len or MAX_LEN
+    rng = random.Random(seed ^ 0x5F5F)
+    gen = rc.SourceFormGen(rng, symbols or sample_symbols())
+    out = []
+    seen = set()
+    tries = 0
+    while len(out) < n and tries < 8 * n:
+        tries += 1
+        try:
+            with _time_limit(5):
+                e = gen.sample()
+        except Exception:  # pylint: disable=broad-except
+            continue
+        if not isinstance(e, sympy.Expr) or e.is_Atom:
+            continue
+        k = sympy.srepr(e)
+        if k in seen:
+            continue
+        seen.add(k)
+        try:
+            if len(render(e)) > max_len:
+                continue
+        except Exception:  # pylint: disable=broad-except
+            pass
+        out.append((tries, e))
+    return out
+
+
 def run(ctx):
     limit_memory()
     ctx.level = "translation_validation"
@@ -187,6 +219,12 @@ def run(ctx):
     for idx, e in gen_samples(sub_seed, n_samples):
         c = make_case(f"sample#{idx}", "sample", e, None, sample_index=idx, srepr=sympy.srepr(e))
         c["vkey"] = f"C17:expr:{c['s']}" if c["s"] is not None else f"C17:expr-raises:{sympy.srepr(e)[:300]}"
+        cases.append(c)
+    # (iii) law-style source forms (evaluation disabled), sampled
+    n_src = ctx.pick(400, 4000)
+    for idx, e in gen_source_forms(sub_seed, n_src):
+        c = make_case(f"source#{idx}", "source", e, None, sample_index=idx, srepr=sympy.srepr(e))
+        c["vkey"] = f"C17:source:{c['s']}" if c["s"] is not None else f"C17:source-raises:{sympy.srepr(e)[:300]}"
         cases.append(c)
     ctx.log(f"{len(cases)} cases built")
 
@@ -254,6 +292,8 @@ def validate(ctx, cases, skipped):
         rc.measure_axioms(ctx, rc.PREAMBLE, first_ok)
     cat = [c for c in cases if c["origin"] == "catalogue"]
     smp = [c for c in cases if c["origin"] == "sample"]
+    src = [c for c in cases if c["origin"] == "source"]
+    ctx.coverage["source_form_cases"] = len(src)
     bracket = sum(1 for c in smp if "(" in c["s"])
     ctx.evaluated(len(cases), len({c["s"] for c in cases if ("(" in c["s"] or "-" in c["s"] or "/" in c["s"] or "^" in c["s"])}))
     ctx.coverage["programs"] = len(cases)
@@ -270,8 +310,10 @@ def validate(ctx, cases, skipped):
     ctx.coverage["rule"] = ("catalogue: every documented member whose docstring carries :laws:symbol::, in source form "
         "(patched AST executed as the doc build does), exhaustive; samples: seeded auto-evaluated trees (ExprGen) over 12 "
         "symbols, integers, rationals, floats, powers, roots, quotients, elementary functions and 22 bracket-sensitive "
-        "templates, distinct by srepr; distinct_nontrivial = distinct renderings containing a bracket, sign, quotient or power")
-    for c in (cat[:2] + smp[:4]):
+        "templates, distinct by srepr; source forms: seeded law-style expressions built with evaluation disabled "
+        "(SourceFormGen: chained products/quotients with signs, bracketed sums as factors, powers, functions); "
+        "distinct_nontrivial = distinct renderings containing a bracket, sign, quotient or power")
+    for c in (cat[:2] + smp[:3] + src[:2]):
         ctx.sample({"item": c["key"], "rendering": c["s"], "original": str(c["expr"]),
             "lemma": (c["lemma"].statement[:600] if c.get("lemma") else None), "status": c["status"]})
 
@@ -280,11 +322,15 @@ def replay(ctx, rep):
     """Re-render the item with the real printer, re-parse it in Coq and evaluate both readings at the valuation."""
     item = rep.get("item", "")
     expr = None
-    if rep.get("origin") == "sample" or item.startswith("sample#"):
+    if rep.get("origin") in ("sample", "source") or item.startswith(("sample#", "source#")):
         rng_ctx = random.Random(rep["seed"])
         sub_seed = rng_ctx.getrandbits(48)
-        n = 1000 if rep.get("tier", "quick") == "quick" else 20000
-        for idx, e in gen_samples(sub_seed, n):
+        quick = rep.get("tier", "quick") == "quick"
+        if rep.get("origin") == "source" or item.startswith("source#"):
+            stream = gen_source_forms(sub_seed, 400 if quick else 4000)
+        else:
+            stream = gen_samples(sub_seed, 1000 if quick else 20000)
+        for idx, e in stream:
             if idx == rep.get("sample_index"):
                 expr = e
                 break
